@@ -516,6 +516,19 @@ theorem C13_lbfgsb_not_worse_model [Zero α] (svc : (List α → α) → List α
     objective (lbfgsbSolve tovecF updateF svc objective init lb).1 ≤ objective init :=
   (C13_lbfgsb_not_worse tovecF updateF svc objective init lb (updateF_tovecF init hwf) hfeas hsvc).1
 
+/-- **Reusable, L-BFGS-B.**  A solve leaves the options stored in the `LBFGSB` object exactly
+as they were (in particular no size-dependent tolerance of this problem is written back), and
+its result is what the bare wrapper computes from these options, the arguments and the
+optimiser service alone.  Hence the `k`-th solve issued to one object equals the same solve
+on a freshly constructed object with the same options, whatever was solved before. -/
+theorem C13_reusable_lbfgsb {β : Type} (tovec : Ktensor β → List β)
+    (update : Ktensor β → List β → Ktensor β)
+    (svc : LbfgsbCall β → (List β → β) → List β → Option β → List β × β) (o : LbfgsbOpts β)
+    (objective : Ktensor β → β) (init : Ktensor β) (lb : Option β) :
+    (lbfgsbSolveObj tovec update svc o objective init lb).2 = o ∧
+    (lbfgsbSolveObj tovec update svc o objective init lb).1 =
+      lbfgsbSolve tovec update (svc ⟨o, o.callback⟩) objective init lb := ⟨rfl, rfl⟩
+
 end lbfgsb
 
 /-! ### non-vacuity: accepted runs with failed epochs, a finite bound, every solver class -/
